@@ -37,7 +37,8 @@ impl<T: Target + 'static> Updater<T> {
     pub(crate) fn init_loop(self, frequency: NonZeroU64) -> Loop<T> {
         Loop {
             updater: self,
-            period: Duration::from_secs(frequency.into()),
+            // the interval timer adds the period to the current instant, which must not overflow
+            period: Duration::from_secs(u64::from(frequency).min(MAX_PERIOD_SECS)),
         }
     }
 
@@ -136,6 +137,8 @@ pub(crate) struct Loop<T> {
 }
 
 const MIN_BACKOFF: Duration = Duration::from_secs(60);
+/// Longest period between runs (about 136 years); longer `--frequency` values are clamped to it.
+const MAX_PERIOD_SECS: u64 = u32::MAX as u64;
 
 impl<T: Target + 'static> Loop<T> {
     #[tracing::instrument(skip(self), level = "trace")]
